@@ -8,12 +8,18 @@ args = sys.argv[1:]
 tier = "quick"
 if "--tier" in args:
     i = args.index("--tier"); tier = args[i + 1]; del args[i:i + 2]
+store = "/verif/seeded"
+if "--store" in args:                      # e.g. --store /verif/benign for behaviour-preserving patches
+    i = args.index("--store"); store = args[i + 1]; del args[i:i + 2]
+patchname = "patch.diff"
+if "--patch" in args:
+    i = args.index("--patch"); patchname = args[i + 1]; del args[i:i + 2]
 name, src, props = args[0], args[1], args[2:]
-dst = os.path.join("/verif/seeded", name)
+dst = os.path.join(store, name)
 os.makedirs(dst, exist_ok=True)
-for f in ("patch.diff", "demo.rs", "notes.md"):
+for f in (patchname, "demo.rs", "notes.md"):
     if os.path.exists(os.path.join(src, f)) and os.path.abspath(src) != os.path.abspath(dst):
-        shutil.copy(os.path.join(src, f), dst)
+        shutil.copy(os.path.join(src, f), os.path.join(dst, "patch.diff" if f == patchname else f))
 tag = "%s_%d" % (name, os.getpid())
 wt, vc = "/tmp/evwt_" + tag, "/tmp/evverif_" + tag
 results = {}
